@@ -95,6 +95,10 @@ Definition status_of (w : watcher) : N :=
 
 Definition evs_eqb (a b : list event) : bool := list_eqb ev_eqb a b.
 
+(* the stream of w is running and nobody has closed anything: subscription registered and open, result channel open *)
+Definition open_stream (w : watcher) : bool :=
+  match w_phase w with PhRun => true | _ => false end && negb (c_closed (w_sub w)) && negb (c_closed (w_out w)).
+
 Definition obs_ok (s : sys) (o : wobs) : bool :=
   match nth_error (s_ws s) (o_w o) with
   | None => false
@@ -103,16 +107,31 @@ Definition obs_ok (s : sys) (o : wobs) : bool :=
       match o_sublen o with Some n => n =? chan_len (w_sub w) | None => true end &&
       match o_got o with Some g => evs_eqb (gexpand g) (concat (w_got w)) | None => true end &&
       match o_closed o with Some b => Bool.eqb b (w_seen_close w) | None => true end &&
-      (if o_quiet o then quiescent s w else true)
+      (if o_quiet o then
+         quiescent s w &&
+         match o_closed o with Some false => open_stream w | _ => true end
+       else true)
   end.
 
 Definition count_reg (s : sys) : N := N.of_nat (length (filter w_reg (s_ws s))).
+
+(* a slot the implementation resolved must be taken by the model's sequencer at that point of the script: the
+   sequencer has no event in hand, its batch is not full, the slot is the one after the committed revision *)
+Definition take_ok (pa : params) (s : sys) (lb : label) : bool :=
+  match lb with
+  | LSeqTake we =>
+      match s_cur s with
+      | Some _ => false
+      | None => (N.of_nat (length (s_pending s)) <? p_batch pa) && (we_rev we =? s_committed s + 1)
+      end
+  | _ => true
+  end.
 
 (* the model follows the labels; every observation must agree with the model's state at that point *)
 Fixpoint run_check (pa : params) (steps : list rstep) (s : sys) : bool :=
   match steps with
   | [] => negb (s_panic s)
-  | RL lb :: t => run_check pa t (step pa s lb)
+  | RL lb :: t => take_ok pa s lb && run_check pa t (step pa s lb)
   | RObs o :: t => obs_ok s o && run_check pa t s
   | RSubs n :: t => (n =? count_reg s) && run_check pa t s
   | RDrops n :: t => (n =? N.of_nat (length (s_spawned s))) && run_check pa t s
